@@ -107,7 +107,6 @@ func genBurst(rng *rand.Rand, engine string) *history {
 type submission struct {
 	ip       string
 	from, to int // versions (number of observed events) the answer may reflect
-	matched  bool
 }
 
 type burstOutcome int
@@ -268,23 +267,34 @@ func (k *checker) runBurst(h *history, no int, second bool) burstOutcome {
 	}
 	for ip, as := range ansByIP {
 		ss := byIP[ip]
-		var match func(i int) bool
-		match = func(i int) bool {
-			if i == len(as) {
-				return true
-			}
-			for _, s := range ss {
-				if !s.matched && fits(s, as[i]) {
-					s.matched = true
-					if match(i + 1) {
-						return true
-					}
-					s.matched = false
+		// maximum bipartite matching answers -> lookups (augmenting paths)
+		owner := make([]int, len(ss)) // lookup j is matched to answer owner[j]
+		for j := range owner {
+			owner[j] = -1
+		}
+		var try func(i int, seen []bool) bool
+		try = func(i int, seen []bool) bool {
+			for j, s := range ss {
+				if seen[j] || !fits(s, as[i]) {
+					continue
+				}
+				seen[j] = true
+				if owner[j] < 0 || try(owner[j], seen) {
+					owner[j] = i
+					return true
 				}
 			}
 			return false
 		}
-		if len(as) != len(ss) || !match(0) {
+		matchAll := func() bool {
+			for i := range as {
+				if !try(i, make([]bool, len(ss))) {
+					return false
+				}
+			}
+			return true
+		}
+		if len(as) != len(ss) || !matchAll() {
 			var want []string
 			for _, s := range ss {
 				var w []string
